@@ -50,15 +50,22 @@ def ops : List Op := [
   ("ds_plan", fun j => do
     let shapes ← asListOf (asListOf asNat) (← field j "leaves")
     let b ← getNat j "block"
-    let slots := shapes.map fun sh => dsSlots sh b
+    let pt ← match fieldD j "ptype" (Json.str "ALL") with
+      | Json.str "INPUT" => pure PType.input
+      | Json.str "OUTPUT" => pure PType.output
+      | Json.str "ALL" => pure PType.all
+      | _ => throw "bad ptype"
+    let slots := shapes.map fun sh => dsSlotsP pt sh b
     let leaves : List (List (Stat Nat)) := slots.map fun l => l.map fun s => ⟨s.size, #[]⟩
     pure (obj [
       ("leaves", listToJson (fun (p : List Nat × List Slot) =>
-        obj [("slots", listToJson slotJson p.2), ("exponent", toJson (2 * p.1.length)),
+        obj [("slots", listToJson slotJson p.2), ("exponent", toJson (2 * (precAxes pt p.1.length).length)),
              ("nblocks", toJson ((cart (p.1.map fun d => pieces (splitSizes d b) 0)).length))]) (shapes.zip slots)),
       ("max_size", toJson (maxSizeOf leaves)),
       ("paddings", natsToJson (leaves.flatten.map (·.size))),
-      ("counts", natsToJson (leaves.map List.length))])),
+      ("counts", natsToJson (leaves.map List.length)),
+      ("index_start", natsToJson (indexStarts (leaves.map List.length) 0)),
+      ("flat_ok", Json.bool ((treeSlots pt b shapes).length == (leaves.map List.length).foldl (· + ·) 0))])),
   ("tf_plan", fun j => do
     let shape ← getNats j "shape"
     let b ← getNat j "block"
